@@ -4,6 +4,8 @@ import EudoxiaModel.Proofs.CtrKept
 import EudoxiaModel.Proofs.NaiveMulti
 import EudoxiaModel.Proofs.PrioBudget
 import EudoxiaModel.Proofs.WorldLive
+import EudoxiaModel.Proofs.PoolLoop
+import EudoxiaModel.Proofs.PoolExample
 /-! # C16 — priority-pool keeps batch work and latency-sensitive work on separate pools -/
 namespace Eudoxia.C16
 open Eudoxia Eudoxia.Prio OpState Extracted
@@ -279,17 +281,6 @@ theorem kill_placed (w : Store) (c : Ctr) (cons : Int) (w' : Store) (c' : Ctr) (
 
 theorem placed_kept (cfg : Cfg) : Kept cfg Placed := ⟨tick_placed cfg, kill_placed⟩
 
-/-- the simulator's main loop for the priority-pool scheduler -/
-def loop : World → St → List Res → List (List Nat) → Except Err (World × St × List Res)
-  | w, st, res, [] => .ok (w, st, res)
-  | w, st, res, newP :: rest =>
-    match ppRound w st res newP with
-    | .error e => .error e.1
-    | .ok (w1, st1, dec) =>
-      match w1.execTick dec.sus dec.asgs with
-      | .error e => .error e.1
-      | .ok (w2, res2) => loop w2 st1 res2 rest
-
 /-- what holds at every tick boundary of a priority-pool run: the queues hold jobs of their class, nothing is being suspended, every container of every pool
 and every result reported sits where its class belongs -/
 structure SepInv (w : World) (st : St) (res : List Res) : Prop where
@@ -354,13 +345,13 @@ theorem tick_keeps_classes_apart (w : World) (st : St) (res : List Res) (newP : 
 priority-pool scheduler and the executor that reaches its end reaches it in such a world again — and so does every prefix of the run: at no tick boundary is
 there a batch container on pool 0, or a query / interactive container on pool 1, or a write-out in progress; retries included. -/
 theorem classes_stay_apart_over_whole_runs : ∀ (arrivals : List (List Nat)) (w : World) (st : St) (res : List Res) (w' : World) (st' : St) (res' : List Res),
-    SepInv w st res → loop w st res arrivals = .ok (w', st', res') → SepInv w' st' res' := by
+    SepInv w st res → PP.loop w st res arrivals = .ok (w', st', res') → SepInv w' st' res' := by
   intro arrivals
   induction arrivals with
-  | nil => intro w st res w' st' res' inv h; simp only [loop, Except.ok.injEq, Prod.mk.injEq] at h; obtain ⟨rfl, rfl, rfl⟩ := h; exact inv
+  | nil => intro w st res w' st' res' inv h; simp only [PP.loop, Except.ok.injEq, Prod.mk.injEq] at h; obtain ⟨rfl, rfl, rfl⟩ := h; exact inv
   | cons newP rest ih =>
     intro w st res w' st' res' inv h
-    unfold loop at h
+    unfold PP.loop at h
     split at h
     · cases h
     · rename_i w1 st1 dec hr
@@ -379,5 +370,21 @@ theorem fresh_world_separated (cfg : Cfg) (store : Store) (pipes : Array PipeInf
   · intro p hp c hc
     obtain ⟨x, _, rfl⟩ := List.mem_map.mp hp
     simp [Pool.fresh] at hc
+
+/-- **C16 over whole runs, unconditionally (multi-operator containers).**  From a world that satisfies the closed-loop invariant `PP.PPInv` (Proofs/PoolLoop.lean)
+and in which every container sits where its class belongs, the run of priority-pool and the executor *does* reach its end — it never raises — and ends with the
+classes still apart.  (With single-operator containers the shipped scheduler raises on its first multi-operator pipeline: known finding D11.) -/
+theorem run_completes_with_classes_apart (arrivals : List (List Nat)) (w : World) (st : St) (cs : List Ctr)
+    (inv : PP.PPInv w st cs arrivals.flatten) (sep : SepInv w st (cs.map mkRes)) :
+    ∃ w' st' res', PP.loop w st (cs.map mkRes) arrivals = .ok (w', st', res') ∧ SepInv w' st' res' := by
+  obtain ⟨w', st', cs', h, _⟩ := PP.run_never_raises arrivals w st cs inv
+  exact ⟨w', st', cs'.map mkRes, h, classes_stay_apart_over_whole_runs arrivals w st _ w' st' _ sep h⟩
+
+/-- non-vacuity: the diamond-DAG world with two pools meets both hypotheses -/
+theorem run_completes_in_a_concrete_world (n : Nat) :
+    ∃ w' st' res', PP.loop (NaiveExample.world true) {} [] ([0] :: List.replicate n []) = .ok (w', st', res') ∧ SepInv w' st' res' := by
+  have := run_completes_with_classes_apart ([0] :: List.replicate n []) (NaiveExample.world true) {} []
+    (by rw [PoolExample.flatten_arrivals]; exact PoolExample.inv) (fresh_world_separated _ _ _ _)
+  simpa using this
 
 end Eudoxia.C16
